@@ -80,6 +80,7 @@ def rule_dof_guard(F, ev, R, config, rule="R-DOF-GUARD", checked=True):
     if not ctors:
         R.bad(rule, config, "-", "anchor-missing", "no constructor of FitStatistics found")
         return
+    seen_under = set()
     for b, bi, si, s in ctors:
         env = Env(b)
         ev.fresh_ctx()
@@ -140,7 +141,7 @@ def rule_dof_guard(F, ev, R, config, rule="R-DOF-GUARD", checked=True):
                 x = x[1]
             return x[0] == "call" and x[1].endswith("checked_sub") and x[3] == (n, tot)
 
-        def defect_edges():
+        def defect_edges(g, xb):
             es = []
             for sw in g.switches:
                 t = sw["term"]
@@ -155,7 +156,7 @@ def rule_dof_guard(F, ev, R, config, rule="R-DOF-GUARD", checked=True):
                                 (r[0] == "Lt" and r[1] == p_ and c_ == ("const", "usize", 1)):
                             es.append(g.bool_edges(sw, truth))
                 if t[0] == "discr" and is_checked_sub(t[1]):
-                    yes, no = variant_edge(b, sw["block"], "None")
+                    yes, no = variant_edge(xb, sw["block"], "None")
                     if yes:
                         es.append(yes)
                 if t[0] == "payload" and is_checked_sub(t):
@@ -165,19 +166,31 @@ def rule_dof_guard(F, ev, R, config, rule="R-DOF-GUARD", checked=True):
                         es.append(z)
             return es
 
-        for ebi, esi, es in b.stmts():
-            if es["k"] == "assign" and es["rv"]["k"] == "agg" and es["rv"].get("variant") == "Underdetermined":
-                edges = defect_edges()
-                okk = bool(edges) and g.holds_on_all_paths_to(ebi, edges)
-                if not okk:
-                    # Err(Underdetermined) as the `ok_or` alternative of the checked subtraction
-                    cons = consumers(b, es["place"]["l"])
-                    if len(cons) == 1 and cons[0]["kind"] == "call" and cons[0]["cid"].rsplit("::", 1)[-1] in ("ok_or",):
-                        recv = ev.operand(env, cons[0]["term"]["args"][0], (cons[0]["block"], None))
-                        if contains(recv, lambda x: x[0] == "call" and x[1].endswith("checked_sub") and x[3] == (n, tot)):
-                            okk = True
-                R.add(rule, config, b.key, "underdetermined-iff", okk,
-                      "" if okk else "Err(Underdetermined) can be produced without N ≤ M+P", es.get("span"))
+        # the mapping may live in the constructor or in a private helper it calls
+        for xb, xenv in inlined_envs(ev, env):
+            g2 = g if xb is b else Guards(ev, xb, xenv)
+            for ebi, esi, es in xb.stmts():
+                if es["k"] == "assign" and es["rv"]["k"] == "agg" and es["rv"].get("variant") == "Underdetermined":
+                    seen_under.add((xb.key, ebi, esi))
+                    edges = defect_edges(g2, xb)
+                    okk = bool(edges) and g2.holds_on_all_paths_to(ebi, edges)
+                    if not okk:
+                        # Err(Underdetermined) as the `ok_or` alternative of the checked subtraction
+                        cons = consumers(xb, es["place"]["l"])
+                        if len(cons) == 1 and cons[0]["kind"] == "call" and cons[0]["cid"].rsplit("::", 1)[-1] in ("ok_or",):
+                            recv = ev.operand(xenv, cons[0]["term"]["args"][0], (cons[0]["block"], None))
+                            if contains(recv, lambda x: x[0] == "call" and x[1].endswith("checked_sub") and x[3] == (n, tot)):
+                                okk = True
+                    R.add(rule, config, xb.key, "underdetermined-iff", okk,
+                          "" if okk else "Err(Underdetermined) can be produced without N ≤ M+P", es.get("span"))
+    # an Underdetermined error produced anywhere else in the crate is not covered by the analysis above
+    for xb in F.bodies.values():
+        if str(xb.j.get("impl", {}).get("trait", "")).startswith("std::"):
+            continue   # derived Clone/PartialEq/... copy a variant, they do not decide it
+        for ebi, esi, es in xb.stmts():
+            if es["k"] == "assign" and es["rv"]["k"] == "agg" and es["rv"].get("variant") == "Underdetermined" and "statistics" in str(es["rv"].get("adt")):
+                if (xb.key, ebi, esi) not in seen_under and (xb.key.split("::{closure")[0]) not in [k for k, _, _ in seen_under]:
+                    R.bad(rule, config, xb.key, "underdetermined-iff", "Err(Underdetermined) is produced in code not reached from the statistics constructor (undetermined)", es.get("span"))
     R.floor(rule, config, 3, "dof term, success guard, Underdetermined mapping")
 
 
